@@ -11,7 +11,11 @@ import (
 // ---- C13 -------------------------------------------------------------------
 
 func (g *Gen) jsonValue() d128.Decimal {
-	switch g.r.Intn(6) {
+	switch g.r.Intn(8) {
+	case 6:
+		return mk(g.r.Intn(2) == 0, g.boundaryCoef(), g.r.Intn(61)-40)
+	case 7:
+		return mk(g.r.Intn(2) == 0, g.fullCoef(), g.r.Intn(61)-40)
 	case 0:
 		return randAny(g.r)
 	case 1:
@@ -180,7 +184,7 @@ func (g *Gen) composeCall(lens []int, expEdges []int) Ev {
 	}
 	sig := c.Bytes()
 	if g.r.Intn(3) == 0 {
-		sig = append(make([]byte, g.r.Intn(20)), sig...)
+		sig = append(make([]byte, []int{1, 2, 7, 15, 16, 17, 20, 31, 32, 33, 40, 200}[g.r.Intn(12)]), sig...)
 	}
 	var exp int
 	switch g.r.Intn(5) {
